@@ -51,7 +51,7 @@ def sig_matches(entry_sig, sig):
 
 
 class Context(object):
-  def __init__(self, pid, tier, seed, level):
+  def __init__(self, pid, tier, seed, level, clear=None):
     self.pid = pid
     self.tier = tier
     self.seed = seed
@@ -73,7 +73,9 @@ class Context(object):
     self.models = []
     self.exhaustive = False
     import glob
-    for f in glob.glob(os.path.join(REPLAYS, "%s-*.json" % pid)):     # replay files of earlier runs are stale
+    if clear is None:
+      clear = "--replay" not in sys.argv
+    for f in (glob.glob(os.path.join(REPLAYS, "%s-*.json" % pid)) if clear else []):   # earlier runs' files are stale
       try:
         os.remove(f)
       except OSError:
@@ -325,3 +327,66 @@ def run_driver(spec, items, procs=16, chunk=None):
         raise Machinery("driver failure:\n" + r[1])
       out.extend(r[1])
   return out
+
+
+def _drive_one(spec, item, q):
+  r = _drive_chunk((spec, [item]))
+  q.put(r)
+
+
+def run_driver_guarded(spec, items, hung, procs=16, chunk=20, total_timeout=120, item_timeout=15, max_hung=4):
+  """Like run_driver, but survives drivers that never return (code under test spinning in a way no
+  in-process budget can interrupt).  If the pool has not finished within total_timeout it is torn down and
+  the items of the unfinished chunks are re-run, one per process, under item_timeout; an item that still does
+  not return yields hung(item).  After max_hung hung items the remaining unfinished items are not evaluated."""
+  items = list(items)
+  chunks = [items[i:i + chunk] for i in range(0, len(items), chunk)]
+  results = [None] * len(chunks)
+  mp = multiprocessing.get_context("fork")
+  pool = mp.Pool(min(procs, max(1, len(chunks))))
+  pending = {i: pool.apply_async(_drive_chunk, ((spec, c),)) for i, c in enumerate(chunks)}
+  deadline = time.time() + total_timeout
+  stuck = []
+  try:
+    for i, ar in pending.items():
+      try:
+        results[i] = ar.get(max(0.5, deadline - time.time()))
+      except multiprocessing.TimeoutError:
+        stuck.append(i)
+  finally:
+    pool.terminate()
+    pool.join()
+  nhung = 0
+  for i in stuck:
+    out = []
+    todo = list(chunks[i])
+    while todo and nhung < max_hung:
+      batch, todo = todo[:procs], todo[procs:]
+      running = []
+      for it in batch:
+        q = mp.Queue()
+        p = mp.Process(target=_drive_one, args=(spec, it, q))
+        p.start()
+        running.append((it, q, p))
+      t_end = time.time() + item_timeout
+      for it, q, p in running:
+        try:
+          r = q.get(timeout=max(0.5, t_end - time.time()))
+          if r[0] != "done":
+            raise Machinery("driver failure:\n" + r[1])
+          out.append(r[1][0])
+        except Machinery:
+          raise
+        except Exception:      # queue.Empty: the item hangs
+          nhung += 1
+          out.append(hung(it))
+        finally:
+          p.terminate()
+          p.join()
+    results[i] = ("done", out)
+  flat = []
+  for r in results:
+    if r[0] == "machinery":
+      raise Machinery("driver failure:\n" + r[1])
+    flat.extend(r[1])
+  return flat
